@@ -104,6 +104,28 @@ CHECKS = {
              "19 library materials with identically zero expansion refuse hot reads off Tinput (documented armi behaviour, modelled as a refusal).",
         technique="TLA+ monomial (exponent-vector) spec of thermal expansion + TLC; behaviours replayed on real shape x material components; TLC trace validation",
     ),
+    "C02": dict(
+        text="Inventory.tla models core > assemblies > blocks > component leaves with integer areas/heights/symmetry factors and exact rational number densities; "
+             "the nine composition mutators (set/update/setAll/scale/clear/add/remove/setMass/setMassFracs, with refusals) are actions at any node; additivity of "
+             "mass/volume/atoms, mass = density x volume, read-back and locality, mass-fraction laws and the densityTools conversions are invariants / step "
+             "properties checked by TLC; AreaCache.tla models the hot/cold area cache. Every emitted edge is replayed on real HexBlocks of four shape families "
+             "(atomic weights patched to the model's integers, plus a real-weight pass on weight-free observables); random edit histories are validated by TLC.",
+        design="3/C02 and 9",
+        note="Trusted: TLC, the block generator (free dimension calibrated to the model area), rational magnitude bounds. Assumes equal cross-section area of the "
+             "blocks of an assembly. Known finding: component-level mass bookkeeping inside symmetry-cut blocks.",
+        technique="TLA+ exact-rational inventory spec + TLC; edge replay on real blocks of several shape families; TLC trace validation of composition edits",
+    ),
+    "C16": dict(
+        text="RetainState.tla carries both the statement's view (stack of scope frames with snapshots) and the mechanism as coded (pickled collection backups, "
+             "class-level assigned flags, cache / material-cache / grid backups), with Enter/Exit/Assign/SetCache/SetGrid/Copy/MakeReadOnly/refusals as actions and "
+             "ExitRestores, LIFO snapshot, cache-leak, copy-equality/independence, serial freshness and read-only clauses as invariants and step properties; TLC "
+             "checks four instances exhaustively; every explored edge is executed on real assemblies/blocks/components/grids; random storms on the smallest test "
+             "reactor (nested scopes to depth 4, copies, read-only) are validated by TLC.",
+        design="3/C16 and 9",
+        note="Trusted: TLC, the projection (parameter digests, assigned flags, caches, grid state). In-place writes behind the parameter system are not "
+             "assignments. Known finding: pickle round trip keeps the serial number.",
+        technique="TLA+ retain-state/copy/read-only spec + TLC; edge replay on real objects; TLC trace validation of random assignment storms",
+    ),
 }
 
 NOT_YET = "no specification-bound check has been built for this property yet in this session (planned, see DESIGN.md section 3)"
